@@ -60,12 +60,19 @@ Fixpoint c09_walk (sent_tpls : list (N * N)) (sends : list (list dop)) (os : lis
 Definition C09_holds_on (c : hcase) (o : list sobs * fobs) : bool :=
   c09_walk [] (hc_sends c) (fst o) (snd o).
 
-(* hypotheses of the statement: each set was built with a single PrepareSet (records of the
-   set's own kind) and no element's Go kind contradicts its data type (no panic) *)
-Definition homogeneous (s : setb) : bool :=
-  forallb (fun r => match s_type s with SData => rec_is_data r | STemplate => negb (rec_is_data r) | SUndefined => true end) (s_recs s).
+(* hypotheses of the statement, on the case:
+   - each set was built with a single PrepareSet: records of the set's own kind (homogeneous)
+     and, for a template set, a header written by PrepareSet (a never-prepared new set has
+     type Template by the zero value and header id 0);
+   - every value of a data record is a Go value of its element's kind (elem_typed): the
+     concrete kind is the element's data type, numbers are within the Go type, the element has
+     the width RFC 7011 gives its type (octet arrays: any uint16; a zero-width one carries the
+     empty value). Values that are
+     well-kinded but not encodable (address family, MAC / octet-array length, nil) are inside
+     the hypotheses - they are what clause (e) is about;
+   (case_set_ok, Driver/RfcCheck.v) and on the run: no call panics. *)
 Definition c09_wf (c : hcase) (os : list sobs) : bool :=
-  forallb (fun ds => homogeneous (set_of (ops_of ds))) (hc_sends c) &&
+  forallb (fun ds => case_set_ok (set_of (ops_of ds))) (hc_sends c) &&
   forallb (fun o => match so_res o with RPanic => false | _ => true end) os.
 
 Definition c09_run (case obs : list string) : string :=
